@@ -143,6 +143,48 @@ def harness_build():
     return rc, o
 
 
+def race_oracle(run, stream, timeout=3000):
+    """Build the harness with the Go race detector and run one stream under it: oracle failures as usual, and every
+    data race the detector reports becomes a failure with the report as the observation."""
+    src = os.path.join(VERIF, 'harness')
+    out = os.path.join(BIN, 'harness_race')
+    rc, o = harness_build()
+    if rc != 0:
+        run.broke('harness build', o[-1500:])
+        return None
+    with Lock('harness'):
+        rc, o, dt = sh(['go', 'build', '-race', '-o', out, '.'], cwd=src, env=GOENV, timeout=1800)
+    if rc != 0:
+        run.broke('harness build with the race detector', o[-1500:])
+        return None
+    env = dict(GOENV)
+    env['GORACE'] = 'halt_on_error=0 exitcode=0'
+    rc, o, dt = sh([out, stream, '-seed', str(run.seed), '-tier', run.tier, '-out', run.outdir], cwd=BUILD, env=env, timeout=timeout)
+    meta_p = os.path.join(run.outdir, stream + '.json')
+    if rc != 0 or not os.path.exists(meta_p):
+        run.broke('harness stream %s failed under the race detector (rc=%d)' % (stream, rc), o[-1500:])
+        return None
+    meta = json.load(open(meta_p))
+    run.cov['evaluations'] += meta.get('evaluations', 0)
+    run.cov['distinct_nontrivial'] += meta.get('distinct_nontrivial', 0)
+    run.notes.setdefault('input_distribution', {})[stream] = meta.get('distribution', {})
+    for f in meta.get('failures', []):
+        run.fail(source='oracle:' + stream, **f)
+    reports = o.split('WARNING: DATA RACE')[1:]
+    seen = set()
+    for r in reports:
+        body = r.split('==================')[0]
+        frames = [l.strip() for l in body.split('\n') if 'github.com/ldclabs/cose' in l or 'main.' in l]
+        keyf = ' | '.join(frames[:4])
+        if keyf in seen:
+            continue
+        seen.add(keyf)
+        run.fail(source='race:' + stream, op='data-race', what='the race detector reports an unsynchronised access', input=keyf[:600],
+                 observed=body.strip()[:1500], expected='no data race', case=keyf[:300])
+    run.notes['race_detector'] = {'stream': stream, 'reports': len(reports), 'wall_s': round(dt, 1)}
+    return meta
+
+
 def run_minlink(run, theorem):
     """Minimal-link probes: programs importing a single algorithm package (configuration dimension of C07/C11/C17)."""
     src = os.path.join(VERIF, 'harness')
